@@ -235,7 +235,7 @@ static Toks decodeFuzz(const uint8_t* data, size_t size) {
     case 2: t = {(o & 1) ? "tt.resizeR" : "tt.resizeL", H(0), std::to_string((o >> 1) % 70), C(" .0", 3, o >> 7)}; break;
     case 3: t = {"tt.split", H(0), sizes[o % 9]}; break;
     case 4: t = {"tt.rmsub", H(0), C("([{a", 4, o), C(")]}(", 4, o >> 2)}; break;
-    case 5: t = {"tt.rmsub5", H(0), C("([<", 3, o), C(")]>", 3, o), "1", H(1), "1", H(2)}; break;
+    case 5: t = {"tt.rmsub5", strToHex(F(0).substr(0, 1024)), C("([<", 3, o), C(")]>", 3, o), "1", H(1), "1", H(2)}; break;   // quadratic output: 1 KiB
     case 6: t = {std::string("tt.") + two[o % 4], H(0), H(1)}; break;
     case 7: t = {"tt.replace", H(0), H(1), H(2)}; break;
     case 8: t = {"st", H(0), H(1), (o & 1) ? "1" : "0", (o & 2) ? "1" : "0", scripts[(o >> 2) % 10]}; break;
